@@ -70,7 +70,7 @@ func (e ExpData) Matches(d *astits.DemuxerData) (bool, string) {
 }
 
 func semEqMsg(got, want any) (bool, string) {
-	g, w := mc.Canon(got), mc.Canon(want)
+	g, w := mc.CanonValue(got), mc.CanonValue(want)
 	if g == w {
 		return true, ""
 	}
